@@ -22,7 +22,7 @@ def ties(ctx):
 def search(ctx, reason):
     t = run_seq(ctx, 'full', 300000, seed_offset=93, tag='search-full')
     for f in t.failures:
-        if f.kind == 'oracle':
+        if f.kind == 'oracle' and f.key not in listed_keys():
             return f
     return None
 
